@@ -23,6 +23,22 @@ func buildBPFIR(prog string) (irText string, err error) {
 		return "", fmt.Errorf("llir: bad program name %q", prog)
 	}
 	src := filepath.Join(repoDir(), "bpf", prog+".c")
+	if base, ok := strings.CutSuffix(prog, ".probe"); ok {
+		// <prog>.probe = the program's current source plus small wrapper functions from /verif/harness/c/<prog>_probe.c
+		// that expose its static inline helpers (key derivations, checksums) as callable functions
+		wrap, err := os.ReadFile(filepath.Join(harnessDir(), "harness", "c", base+"_probe.c"))
+		if err != nil {
+			return "", fmt.Errorf("llir: %v", err)
+		}
+		tmp, err := os.CreateTemp("", "bngsym-probe-*.c")
+		if err != nil {
+			return "", err
+		}
+		defer os.Remove(tmp.Name())
+		fmt.Fprintf(tmp, "#include \"%s\"\n%s\n", filepath.Join(repoDir(), "bpf", base+".c"), wrap)
+		tmp.Close()
+		src = tmp.Name()
+	}
 	if _, err := os.Stat(src); err != nil {
 		return "", fmt.Errorf("llir: %v", err)
 	}
@@ -78,10 +94,10 @@ func loadBPFModule(prog string) (*LLModule, error) {
 		names := map[string][]string{}
 		ents, _ := os.ReadDir(filepath.Join(repoDir(), "bpf"))
 		for _, e := range ents {
-			if e.Name() == prog+".c" || strings.HasSuffix(e.Name(), ".h") {
+			if e.Name() == strings.TrimSuffix(prog, ".probe")+".c" || strings.HasSuffix(e.Name(), ".h") {
 				if b, err := os.ReadFile(filepath.Join(repoDir(), "bpf", e.Name())); err == nil {
 					for k, v := range mapFieldNames(string(b)) {
-						if _, dup := names[k]; !dup || e.Name() == prog+".c" {
+						if _, dup := names[k]; !dup || e.Name() == strings.TrimSuffix(prog, ".probe")+".c" {
 							names[k] = v
 						}
 					}
